@@ -1978,8 +1978,11 @@ fn session_protocol<const K: usize>() {
     // enqueue chunks up to and including the first terminal marker
     let mut n_chunks = 0usize;
     let mut terminal = 0u8; // 0 none (bare close), 1 End, 2 Fail
+    // the producer may vanish after any number of messages, also before the first
+    let len: usize = kani::any();
+    kani::assume(len <= K);
     let mut i = 0;
-    while i < K && terminal == 0 {
+    while i < len && terminal == 0 {
         kani::assume(kinds[i] <= 2);
         match kinds[i] {
             0 => {
@@ -2033,7 +2036,8 @@ fn session_protocol<const K: usize>() {
     kani::cover!(terminal == 2 && n_chunks == 0);
     kani::cover!(terminal == 2 && n_chunks == K - 1);
     kani::cover!(terminal == 1 && n_chunks == K - 1);
-    kani::cover!(terminal == 0);
+    kani::cover!(terminal == 0 && n_chunks == K);
+    kani::cover!(terminal == 0 && n_chunks == 0);
     std::mem::forget(s);
     std::mem::forget(tx);
 }
@@ -2043,7 +2047,7 @@ fn session_protocol<const K: usize>() {
 //@ clause: a producer failure at any point (before the first chunk, after k chunks) or a vanished producer surfaces as an error instead of an end marker; a clean end yields exactly one final chunk after all chunks, in order
 //@ funcs: Session::pull; Session::recv
 //@ symbolic: the producer's message sequence (each of 3 slots: chunk / End / Fail, cut at the first terminal marker), chunk bytes
-//@ bounds: <= 3 messages (0..2 chunks before the terminal marker, or no marker at all); unwind 8
+//@ bounds: <= 3 messages (0..2 chunks before the terminal marker, or 0..3 chunks and no marker at all: the producer vanished, possibly before its first message); unwind 8
 //@ oracle: statement clauses over the enqueued sequence
 //@ stubs: mpsc::SyncSender::send / Receiver::recv -> in-memory FIFO
 #[kani::proof]
@@ -2100,6 +2104,11 @@ fn file_create_stub<P: AsRef<Path>>(p: P) -> io::Result<std::fs::File> {
     if unsafe { FAIL_CREATE } {
         Err(io::Error::from(io::ErrorKind::PermissionDenied))
     } else {
+        if role(p.as_ref()) == 1 {
+            unsafe {
+                TMP_EXISTS = true;
+            }
+        }
         Ok(unsafe { std::fs::File::from_raw_fd(77) })
     }
 }
@@ -2114,6 +2123,11 @@ fn rename_stub<P: AsRef<Path>, Q: AsRef<Path>>(from: P, to: Q) -> io::Result<()>
     if unsafe { FAIL_RENAME } {
         Err(io::Error::from(io::ErrorKind::PermissionDenied))
     } else {
+        if role(from.as_ref()) == 1 {
+            unsafe {
+                TMP_EXISTS = false;
+            }
+        }
         Ok(())
     }
 }
@@ -2123,17 +2137,25 @@ fn remove_file_stub<P: AsRef<Path>>(p: P) -> io::Result<()> {
         2 => fs_log(OP_TOUCH_FINAL),
         _ => fs_log(OP_OTHER),
     }
+    if role(p.as_ref()) == 1 {
+        unsafe {
+            TMP_EXISTS = false;
+        }
+    }
     Ok(())
 }
 fn owned_fd_drop_stub(_fd: &mut std::os::fd::OwnedFd) {}
 
 static mut DEST_EXISTS: bool = false;
+static mut TMP_EXISTS: bool = false;
 /// `fs::metadata` (behind Path::exists / is_file / is_dir): reading is harmless, so
 /// nothing is logged; the destination either does not exist or is a regular file,
-/// as the harness chose (destination pre-existing or absent). The Metadata value is
-/// a stat buffer whose st_mode reads S_IFREG.
+/// as the harness chose (destination pre-existing or absent), and the temporary
+/// file is a regular file from its creation until it is renamed or removed. The
+/// Metadata value is a stat buffer whose st_mode reads S_IFREG; both files report
+/// the same length (the case "new content has the size of the old").
 fn metadata_stub<P: AsRef<Path>>(p: P) -> io::Result<std::fs::Metadata> {
-    if role(p.as_ref()) == 2 && unsafe { DEST_EXISTS } {
+    if (role(p.as_ref()) == 2 && unsafe { DEST_EXISTS }) || (role(p.as_ref()) == 1 && unsafe { TMP_EXISTS }) {
         // every 32-bit word = S_IFREG (0o100000): wherever the compiler placed st_mode,
         // file_type() reads "regular file"; no other field is consulted by is_file/exists
         let mut raw = [0u8; std::mem::size_of::<std::fs::Metadata>()];
@@ -2156,7 +2178,7 @@ fn metadata_stub<P: AsRef<Path>>(p: P) -> io::Result<std::fs::Metadata> {
 //@ symbolic: whether creation fails, whether the guard is committed or dropped (= the pull failed), whether the rename fails, whether the destination already exists
 //@ bounds: one guard; paths concrete ("d/f", "d/f.svspart")
 //@ oracle: predicate over the trace of filesystem operations
-//@ stubs: File::create / fs::rename / fs::remove_file -> trace + chosen outcome; fs::metadata -> destination absent or a regular file as chosen; OwnedFd::drop -> no-op (no real descriptor)
+//@ stubs: File::create / fs::rename / fs::remove_file -> trace + chosen outcome; fs::metadata -> destination absent or a regular file as chosen, the temporary file a regular file of the same length while it exists; OwnedFd::drop -> no-op (no real descriptor)
 #[kani::proof]
 #[kani::stub(std::fs::File::create, file_create_stub)]
 #[kani::stub(std::fs::rename, rename_stub)]
